@@ -25,7 +25,7 @@ struct cvx_t final : function_t
     {
         for (tensor_size_t i = 0; i < n; ++i)
         {
-            a(i) = sym_box(sym_nm("a", i), amin, 8.0);
+            a(i) = cfgi("a1", 0) ? 1.0 : sym_box(sym_nm("a", i), amin, 8.0); // a1=1: slopes fixed to 1 (f = sum |z_i - b_i|)
             b(i) = cfgi("zero", 0) ? 0.0 : sym_box(sym_nm("b", i), -4.0, 4.0); // zero=1: minimiser at the origin (tiny radii stay representable)
             c(i) = with_q ? sym_box(sym_nm("c", i), -4.0, 4.0) : 0.0;
         }
